@@ -73,6 +73,73 @@ def make_fault(case, spec):
     return None, (f["kind"], f["index"])
 
 
+class ThetaProbe:
+    """Reads the contraction ratio `theta` of every trial of the ratio-based step controllers from the frames of the
+    running code (sys.settrace on the two `step` functions; nothing is changed)."""
+
+    FILES = ("distance_ratio_control.py", "residuum_ratio_control.py")
+
+    def __init__(self):
+        self.thetas = []
+
+    def _local(self, frame, event, arg):
+        if event == "return":
+            th = frame.f_locals.get("theta")
+            if th is not None:
+                self.thetas.append(float(th))
+        return self._local
+
+    def _global(self, frame, event, arg):
+        co = frame.f_code
+        if co.co_name == "step" and co.co_filename.endswith(self.FILES):
+            return self._local
+        return None
+
+    def __enter__(self):
+        import sys
+
+        self._old = sys.gettrace()
+        sys.settrace(self._global)
+        return self
+
+    def __exit__(self, *a):
+        import sys
+
+        sys.settrace(self._old)
+
+
+def tie_runs(case, res):
+    """Re-runs the case with theta_max placed on / one ulp beside the contraction ratio observed for one of its trials:
+    the acceptance test and everything derived from it then sit on an exact tie."""
+    with ThetaProbe() as pr:
+        p = work.prepare(case, record_sites=False, keep_args=False)
+        mon.run_solve(p.rec, p.params, p.x0, p.y0)
+    ths = [t for t in pr.thetas if 1e-6 < t < 0.999]
+    if not ths:
+        return []
+    rng = rng_for("C15tie", *case["gseed"])
+    # the ratio of the first trial is reproduced whatever theta_max is; later ones only if no earlier decision flips
+    pick = ths[:3] + ([ths[int(rng.integers(3, len(ths)))]] if len(ths) > 3 else [])
+    viol = []
+    for tm in [t for th in pick for t in (np.nextafter(th, 0.0), th, np.nextafter(th, 1.0))]:
+        cfgd = dict(case["cfg"], theta_max=float(tm))
+        c2 = dict(case, cfg=cfgd)
+        with ThetaProbe() as pr2:
+            p2 = work.prepare(c2, record_sites=False, keep_args=False)
+            out2 = mon.run_solve(p2.rec, p2.params, p2.x0, p2.y0)
+        hit = sum(1 for t in pr2.thetas if abs(t - tm) <= 2 * np.spacing(tm))
+        res["ctr"]["tie_runs"] = res["ctr"].get("tie_runs", 0) + 1
+        res["ctr"]["trials_on_the_acceptance_threshold"] = res["ctr"].get("trials_on_the_acceptance_threshold", 0) + hit
+        if out2.solver is None or not out2.trace.trials:
+            continue
+        v2, _ = work.check_stepsize(p2, out2, None)
+        for v in v2:
+            v["what"] = "theta_max on the contraction ratio of a trial (%r): %s" % (float(tm), v["what"])
+            v["key"]["tie"] = True
+        viol += v2
+    return viol
+
+
 def run_case(case):
     p0 = work.prepare(case, record_sites=False, keep_args=False)
     fault, lin = make_fault(case, p0.spec)
@@ -107,6 +174,8 @@ def run_case(case):
         res["ctr"]["resolves_checked"] = 1
         for k in ("pairs", "rejections", "failures", "exact_accepts_checked"):
             stats[k] += s2[k]
+    if p.cfg["control"] in ("DistanceRatio", "ResiduumRatio") and not case.get("fault"):
+        viol += tie_runs(case, res)
     res["viol"] = viol[:4]
     fired = bool((fault and fault.fired) or (out.factory and out.factory.fired))
     res["ctr"].update({"trial_pairs": stats["pairs"], "rejections": stats["rejections"], "failures": stats["failures"],
@@ -132,11 +201,11 @@ def finalize(agg, tier):
         "rule": "QP/NLP/degenerate/nonconvex-singular/unbounded specs x random (controller with 35% extra weight on Exact, "
                 "Newton type, step solver, LU/GMRES, penalty, active-set rule, scaling) x lamb_max 3..1000 in 25% of the "
                 "runs x lamb_init, rho x injected failures in 65% of the runs (k-th evaluation of a component non-finite, "
-                "k-th factorisation/solve failing, all evaluations outside a ball around x0 non-finite; under exact control half of the evaluation faults run with validate_input=False so that the non-finite value reaches the controller's acceptance test); non-trivial = the "
+                "k-th factorisation/solve failing, all evaluations outside a ball around x0 non-finite; the fault-free ratio-controlled runs are repeated with theta_max placed exactly on, one ulp below and one ulp above the contraction ratio read (sys.settrace) from up to four of their trials (the first three and a later one); under exact control half of the evaluation faults run with validate_input=False so that the non-finite value reaches the controller's acceptance test); non-trivial = the "
                 "run contained at least one rejected or failed trial; distinct by spec seed",
         "floors": {"trial_pairs": 5000, "rejections": 300, "failures": 50, "lamb_max_aborts": 20,
-                   "exact_accepts_checked": 500, "faults_fired": 100, "resolves_checked": 40,
-                   "exact_unvalidated_faults_fired": 15},
+                   "exact_accepts_checked": 500, "faults_fired": 100, "resolves_checked": 25,
+                   "exact_unvalidated_faults_fired": 15, "tie_runs": 300, "trials_on_the_acceptance_threshold": 150},
         "assumptions": ["exact-control residual bound newton_tol + sqrt(n)*1e-8 (activity threshold of the projection) "
                         "+ 1e-12 x magnitude"],
     }
